@@ -147,13 +147,65 @@ def fit(ck, prog):
     fits = [(bb, t) for bb, t in b.calls() if t.get("f") and t["f"]["path"].endswith(("CategoryMapper::<C>::fit_to_iter", "CategoryMapper::<C>::from_category_map", "CategoryMapper::<C>::from_positional_category_vec"))]
     fills = [(bb, t) for bb, t in b.calls() if t.get("f") and t["f"]["path"].endswith("BaseMatrix::copy_col_as_vec")]
     problems = []
-    if len(sws) != 1 or len(vcalls) != 1:
+    helper = None
+    if not sws and not vcalls:
+        # helper form: `check_col(.., &col_buf)?` where the helper turns a failed validation into Err
+        from sa import e1
+        for bb, t in b.calls():
+            f = t.get("f")
+            cal = None
+            for key in ((f or {}).get("resolved"), (f or {}).get("path")):
+                if key and key in prog.bodies:
+                    cal = prog.bodies[key]
+            if cal is None or cal is b or not e1._propagates_err(b, cx, bb, t):
+                continue
+            hx = BodyCtx.of(cal)
+            hs = [s for s in guards.bool_switches(cal, hx.res) if s[1][0] == "call" and s[1][1].endswith("validate_col_is_categorical")]
+            if len(hs) != 1:
+                continue
+            hb, hterm, htb, hfb = hs[0]
+            outs = guards.edge_outcomes(cal, hb, hfb, hx.res)
+            varg = hterm[2][0]
+            if guards.outcome_ok(outs, "Err") and "panic" not in outs and varg[0] == "arg" and varg[1] - 1 < len(t["args"]):
+                # continue edge of the `?`
+                cont = None
+                for bb2, t2 in b.calls():
+                    f2 = t2.get("f")
+                    if f2 and f2["path"] == "std::ops::Try::branch" and t2["args"][0]["k"] in ("move", "copy") and t2["args"][0]["p"] == {"l": t["d"]["l"], "pr": []}:
+                        tt = b.blocks[t2["t"]]["term"]
+                        if tt["k"] == "switch":
+                            cont = ([d for v, d in tt["targets"] if v == "0"] or [None])[0]
+                            brk = ([d for v, d in tt["targets"] if v == "1"] or [None])[0]
+                if cont is not None:
+                    helper = dict(call_bb=bb, pass_bb=cont, fail_bb=brk, buf=t["args"][varg[1] - 1], via=cal.path)
+    if helper:
+        vb = root_local(b, helper["buf"])
+        fl = root_local(b, fills[0][1]["args"][-1]) if fills else None
+        if not fits:
+            problems.append("no CategoryMapper fit found")
+        if not fills:
+            problems.append("no column extraction (copy_col_as_vec) found")
+        for bb, t in fits:
+            if not (b.dominates(helper["pass_bb"], bb) and not b.dominates(helper["fail_bb"], bb)):
+                problems.append(f"mapper fit at {b.where(bb)} is not dominated by a passed validation")
+            if not _mentions_local(b, t["args"][0], vb):
+                problems.append(f"mapper at {b.where(bb)} is not fitted on the validated buffer")
+        if vb is None or vb != fl:
+            problems.append(f"validated buffer (_{vb}) is not the buffer filled from the column (_{fl})")
+        if fills and not b.dominates(fills[0][0], helper["call_bb"]):
+            problems.append("the column is not extracted before it is validated")
+        if problems:
+            ck.violation(rule, inst, b.path, f"{b.loc[0]}:{b.loc[1]}", expected="validate(col) false -> Err; validation dominates the mapper fit; same buffer", found="; ".join(problems))
+        else:
+            ck.ok(rule, inst, b.path, b.where(helper["call_bb"]), f"via {helper['via']}: validate false -> Err, ?-propagated; dominates fit_to_iter; same buffer")
+        problems = None
+    elif len(sws) != 1 or len(vcalls) != 1:
         problems.append(f"expected one validation call and one branch on it, found {len(vcalls)}/{len(sws)}")
     if not fits:
         problems.append("no CategoryMapper fit found")
     if not fills:
         problems.append("no column extraction (copy_col_as_vec) found")
-    if not problems:
+    if problems is not None and not problems:
         sb, _, tb, fb = sws[0]
         outs = guards.edge_outcomes(b, sb, fb, cx.res)
         if not (guards.outcome_ok(outs, "Err") and "panic" not in outs):
@@ -173,7 +225,9 @@ def fit(ck, prog):
             arg = r.operand(t["args"][0])
             if not any(s == ("local", vb) or _mentions_local(b, t["args"][0], vb) for s in [arg]):
                 problems.append(f"mapper at {b.where(bb)} is fitted on `{render(arg)[:80]}`, not on the validated buffer")
-    if problems:
+    if problems is None:
+        pass
+    elif problems:
         ck.violation(rule, inst, b.path, f"{b.loc[0]}:{b.loc[1]}", expected="validate(col) false -> Err; validation dominates the mapper fit; same buffer", found="; ".join(problems))
     else:
         ck.ok(rule, inst, b.path, b.where(sws[0][0]), "validate false -> Err; dominates fit_to_iter; same buffer")
